@@ -303,6 +303,31 @@ def _kf3_model(desc, mode):
     return out if changed[0] else None
 
 
+# export names beyond [a-z0-9]: the name encoding (byte length prefix, UTF-8) and the escaping of the text format
+EXPORT_NAMES = st.one_of(
+    st.sampled_from(["\u03c02", "\u00e9nv", "a b", 'x"y', "back\\slash", "tab\there", "new\nline", "", "\u65e5\u672c\u8a9e", "\U0001f600", "\x7f", "a;b", "(x)", "$f", "\\", '"', "\u00ff" * 70]),
+    st.text(alphabet=st.characters(codec="utf-8", exclude_categories=("Cs",)), max_size=5),
+)
+
+
+def rename_exports(case, exo):
+    """Give the exports of the module the drawn names (made unique by a numeric suffix); calls follow."""
+    if not exo:
+        return case
+    desc = dict(case["desc"])
+    ren, taken, exports = {}, set(), []
+    for i, e in enumerate(desc.get("exports", [])):
+        new = exo[i % len(exo)]
+        if i >= len(exo) or new in taken:
+            new = "%s%d" % (new, i)
+        taken.add(new)
+        ren[e["name"]] = new
+        exports.append(dict(e, name=new))
+    desc["exports"] = exports
+    calls = [[ren.get(c[0], c[0])] + list(c[1:]) for c in case.get("calls", [])]
+    return dict(case, desc=desc, calls=calls, exotic_names=True)
+
+
 def classify(case, msg):
     h = parse_message(msg)
     if h is None:
@@ -394,16 +419,17 @@ def _worker(arg):
             sample = {"wat": R.to_wat(desc)[:1500], "calls": case["calls"], "wat_variant": case["wat"], "noncanon": case["noncanon"],
                       "ref_binary_len": len(R.encode(desc))}  # fmt: skip
         classes = ["feat:" + f for f in sorted(feats)] + ["wat:" + ("folded" if case["wat"]["folded"] else "flat"),
-                                                        "wat-names:" + ("numeric", "unique", "shadowing")[case["wat"]["names"]]]
+                                                        "wat-names:" + ("numeric", "unique", "shadowing")[case["wat"]["names"]]] + (["exotic-export-names"] if case.get("exotic_names") else [])
         stats.case(core.jhash(case), nontrivial, sample, classes=classes)
         return msg
 
     base = G.cases(flags, max_funcs=sizes["max_funcs"], fuel=sizes["fuel"], depth=sizes["depth"])
     strat = st.builds(
-        lambda c, folded, style, inline, names, pad, split: dict(c, wat={"folded": folded, "style": style, "inline": inline, "names": names,
-                                                                         "cond_names": "C21-KF3" not in open_ids},
-                                                                noncanon={"leb_pad": pad, "split_locals": split}),
+        lambda c, folded, style, inline, names, pad, split, exo: rename_exports(
+            dict(c, wat={"folded": folded, "style": style, "inline": inline, "names": names, "cond_names": "C21-KF3" not in open_ids},
+                 noncanon={"leb_pad": pad, "split_locals": split}), exo),
         base, st.booleans(), st.integers(0, 2), st.booleans(), st.sampled_from([2, 0, 1, 2]), st.integers(0, 2), st.booleans(),
+        st.one_of(st.none(), st.none(), st.lists(EXPORT_NAMES, min_size=1, max_size=6)),
     )  # fmt: skip
     fails = hyp_search(strat, prop, n, seed, stats, classify=lambda c, m: (classify(c, m) if classify(c, m) in open_ids else None),
                        budget_s=sizes["budget_s"])  # fmt: skip
